@@ -1,9 +1,11 @@
 package main
 
 import (
+	"encoding/json"
 	"flag"
 	"fmt"
 	"os"
+	"path/filepath"
 	"sort"
 	"strings"
 	"time"
@@ -23,7 +25,25 @@ func main() {
 	sweep := flag.String("sweep", "", "zero-annotation safety sweep over functions matching substring")
 	replay := flag.String("replay", "", "re-run a stored replay file")
 	outDir := flag.String("outdir", "", "directory for evidence/ and replays/ (default: the verif directory)")
+	witness := flag.String("witness", "", "run only the witness-search driver of a property against the real code (no proof)")
 	flag.Parse()
+	if *witness != "" {
+		var meta PropMeta
+		if d, err := os.ReadFile(filepath.Join(*verifDir, "props", *witness+".json")); err == nil {
+			json.Unmarshal(d, &meta)
+		}
+		if meta.ReplayTest == "" {
+			fmt.Println("no witness-search driver registered for", *witness)
+			os.Exit(2)
+		}
+		found, input, out := runReplay(*repo, *verifDir, *witness, meta, 0, "", "")
+		if found {
+			fmt.Printf("witness search %s: failing input %s\n%s\n", *witness, input, truncate(out, 1500))
+			os.Exit(1)
+		}
+		fmt.Printf("witness search %s: nothing found\n%s\n", *witness, truncate(lastLines(out, 6), 1500))
+		os.Exit(0)
+	}
 
 	t0 := time.Now()
 	p, err := LoadProg(*repo, *verifDir+"/trusted")
@@ -151,4 +171,12 @@ func main() {
 		os.RemoveAll(dir)
 		os.Exit(1)
 	}
+}
+
+func lastLines(s string, n int) string {
+	ls := strings.Split(strings.TrimRight(s, "\n"), "\n")
+	if len(ls) > n {
+		ls = ls[len(ls)-n:]
+	}
+	return strings.Join(ls, "\n")
 }
